@@ -152,4 +152,34 @@ theorem pinned_info_not_active :
 example : ([Ev.reload (some 1) (some 0), .accept, .reload (some 1) (some 1), .accept].foldl (step (fun _ => false))
     { active := 0, info := 0 }).accepted = [0, 1] := by decide
 
+/-! ### the listening server (`Server::listen` on the reloader's acceptor cell)
+
+`Gen.acceptorRead` is regenerated from `server.rs` on every run: where the accept loop reads the cell relative to
+`accept()`.  `listen_reads_after_accept` is the obligation the code has to meet; `listener_is_model` then
+identifies the real loop's connections with the `accept` of the state machine above, so every theorem of this
+file speaks about connections of the listening server, and `first_handshake_after_reload` spells out the clause
+"a successful reload is used by every later handshake" for the very next connection. -/
+
+theorem listen_reads_after_accept : Gen.acceptorRead = .afterAccept := by decide
+
+theorem listener_is_model (l : Listener) : (l.conn Gen.acceptorRead).st = l.st.accept := by
+  rw [listen_reads_after_accept]; rfl
+
+/-- whatever the loop held before, the first connection after a successful reload is served with the new pair
+(and so is every later one, by the same theorem applied to the state it leaves) -/
+theorem first_handshake_after_reload (l : Listener) (expired : Nat → Bool) (c : Nat)
+    (hok : (l.st.reload expired (some c) (some c)).2 = true) :
+    ((l.reload expired (some c) (some c)).conn Gen.acceptorRead).st.accepted.getLast? = some c := by
+  rw [listen_reads_after_accept]
+  obtain ⟨c', hc, _, _, _, _, hlast⟩ := ok_reload_swaps l.st expired (some c) (some c) hok
+  have : c' = c := (Option.some.inj hc).symm
+  subst this
+  exact hlast
+
+/-- a loop that reads the cell before it waits in `accept()` serves the first connection after a reload with the
+previous pair (the excluded shape is refuted, so the obligation is not idle) -/
+theorem read_before_accept_serves_stale :
+    let l := Listener.start { active := 0, info := 0 }
+    ((l.reload (fun _ => false) (some 1) (some 1)).conn .beforeAccept).st.accepted = [0] := by decide
+
 end AnyTLS.C18
